@@ -251,7 +251,10 @@ func ringSimilar(a, b []Point, e float64) bool {
 	if !closed(a) || !closed(b) {
 		return pointsSimilar(a, b, e)
 	}
-	ia0 := minPt(a)
+	// (The anchor is looked for among the distinct vertices: a closing point
+	// that repeats the first one only within the tolerance may itself be the
+	// lowest leftmost point, and the walk below never visits it.)
+	ia0 := minPt(a[:len(a)-1])
 	n := len(b)
 	if n > 1 {
 		n-- // the last point repeats the first
